@@ -4,8 +4,11 @@
     on the input: the repaired dispatcher keeps `evaluated_creators`); C15_once_pinned + once_needs_covers and
     pinned_filter_matches_subtask_placeholder keep the two pinned behaviours (findings F-C15b, F-C15a, fixed), C15_after_trigger (every creator evaluation is preceded by the terminal report of the
     creator's `executed` task), C15_loader_after_deps, C15_created_at_most_once / C15_report_means_finished (once-only
-    half of created_obey).  Ordering half of created_obey and the target rule: full statements kept as `def`,
-    evaluated by the monitor.
+    half of created_obey), C15_created_obey / C15_created_start_after_deps (ordering half: obeyOK over the table of
+    the Task objects the nodes hold), C15_created_obey_tasks (over TaskControl.tasks; hypothesis noRedefB, needed:
+    created_obey_needs_noRedef), C15_node_holds_table, C15_created_obey_table (bridge), C15_created_utd (up-to-date rule), C15_target / C15_target_producer_first (structural core of the
+    target rule; hypothesis rxB), C15_nodes_in_closure / C15_started_in_closure ("exactly": nothing outside the
+    closure of the selection gets a node / is started).  Liveness of the target rule stays with the monitor targetOK.
 (K) generated dodo namespaces: static tasks + `create_after` creators (executed / creates=[..] / target_regex,
     sub-task yielding creators, explicit-basename creators, creators triggered by another creator's task), selections
     by task, sub-task and target (also --auto-delayed-regex), serial / MThreadRunner under the deterministic scheduler
@@ -64,10 +67,26 @@ META = {
                    'C15_loader_after_deps, C15_created_at_most_once and C15_report_means_finished (every task, static '
                    'or created, is handed to execution at most once and reported at most once).  Counterexample '
                    'theorems about the pinned code: once_needs_covers, pinned_filter_matches_subtask_placeholder.  '
-                   'The ordering / up-to-date rules for created tasks and the target rule are full-statement monitors '
-                   'on every implementation trace (definitions C15_created_obey_full, C15_target_full; not theorems).  '
+                   'C15_created_obey / C15_created_start_after_deps (ordering half of created_obey: in every reachable '
+                   'state every `start t` is preceded by a success/up-to-date report of every task_dep -- static or '
+                   'created, implicit deps through targets included -- of the Task object the node of t holds; at most '
+                   'one start and one terminal report; this is the monitor obeyOK as a theorem) and '
+                   'C15_created_obey_table (the same over TaskControl.tasks in every state where no started task was '
+                   're-defined by a creator).  C15_target / C15_target_producer_first (hypothesis rxB, evaluated on '
+                   'every case): the not-found error is raised only while nobody registered the word as a target and '
+                   'its regex group is exhausted; a loaded regex placeholder has the producer of its word among its '
+                   'task_deps (so it starts after the producer\'s good report) unless other loaders of the group are '
+                   'still to be tried.  C15_created_utd (utdOK as a theorem; get_status is an oracle of the model).  '
+                   'C15_nodes_in_closure / C15_started_in_closure: every task that gets a node / is started is '
+                   'reachable from the selection through task_dep edges of the node-held Task objects or of the '
+                   'initial table.  "The producer is eventually processed" (liveness half of targetOK) is a monitor '
+                   'on every implementation trace.  '
                    'The model is tied to doit on every run by trace acceptance.'),
-    'level_note': ('Ordering half of created_obey and target: monitor-only.  Regex matching and the creators are '
+    'level_note': ('created_obey is proved without extra hypotheses for the node-held Task objects and under noRedefB '
+                   '(evaluated on every case: hyp:noredef) for TaskControl.tasks; self.tasks[nt.name] = nt has no '
+                   'guard, so re-definition of an executed task is possible in doit.  Target: liveness is '
+                   'monitor-only.  '
+                   'Regex matching and the creators are '
                    'oracles (computed by the harness with Python re / from the generated yields).  Parallel runners '
                    'are over-approximated (no worker accounting; that is C02).  Both findings made by this check '
                    '(F-C15a subtask-then-regex-target, F-C15b creates-not-yielded) are repaired in /repo; '
